@@ -28,6 +28,15 @@ def tol_for(records, n):
     return observe.Tol(n=16 * max(1, n), scale=scale)
 
 
+def model_tol(w, tol):
+    """the exact comparison holds while every sum is a floating-point number; model.INEXACT says when the last
+    model_doc left that regime (weights spread over more than 52 bits): sums are then compared within the rounding bound"""
+    if model.INEXACT[0]:
+        w.bump("probe_model_sums_rounded")
+        tol.sums = True
+    return tol
+
+
 class C01(Scenario):
     prop = "C01"
     level = "exploration"
@@ -168,7 +177,7 @@ class C01(Scenario):
         recs = [w.records[i] for i, _ in cover]
         m = model.model_doc(w.specs[0], [(w.records[i], wt) for i, wt in cover])
         doc = self._content(w, doc)
-        d = observe.doc_diff(doc, m, tol_for(recs, len(cover) + nmerge))
+        d = observe.doc_diff(doc, m, model_tol(w, tol_for(recs, len(cover) + nmerge)))
         if d is not None:
             raise self.violation(d[1], what, "content:%s" % d[2],
                                  "%s result differs from the reference model at %s (%s.%s)" % (what, d[0], d[1], d[2]),
